@@ -33,6 +33,7 @@ import (
 	transfertypes "github.com/cosmos/ibc-go/v11/modules/apps/transfer/types"
 	clienttypes "github.com/cosmos/ibc-go/v11/modules/core/02-client/types"
 	channeltypes "github.com/cosmos/ibc-go/v11/modules/core/04-channel/types"
+	channeltypesv2 "github.com/cosmos/ibc-go/v11/modules/core/04-channel/v2/types"
 	ibctesting "github.com/cosmos/ibc-go/v11/testing"
 	ibcmock "github.com/cosmos/ibc-go/v11/testing/mock"
 
@@ -50,9 +51,10 @@ const port = transfertypes.PortID
 const (
 	pathVoucher = 0 // the voucher of B's native token `rlb` on A: receiving mints (inflow), sending back burns (outflow): the supply moves
 	pathNative  = 1 // A's native token `rla`: sending escrows (outflow), vouchers coming home are released (inflow): the supply is constant
+	pathV2      = 2 // like pathVoucher, but over the IBC v2 client-to-client route: MsgSendPacket with an ICS-20 payload, rate limit keyed by (denom, client id)
 )
 
-var pathNames = []string{"voucher-denom", "native-denom"}
+var pathNames = []string{"voucher-denom", "native-denom", "v2-client-voucher-denom"}
 
 func addr(seed string) sdk.AccAddress {
 	h := sha256.Sum256([]byte("verif/c41/" + seed))
@@ -112,6 +114,8 @@ type Sc struct {
 	sendB string // denomination user B sends (bank denom on B)
 	q0    quota  // the quota installed at the root
 	wit   [nWit]atomic.Int64
+
+	repaired atomic.Int64 // snapshots whose app hash had to be recomputed (see commit)
 }
 
 // witnesses counted over transitions (non-vacuity evidence)
@@ -150,7 +154,7 @@ func init() {
 	for _, a := range []sdk.AccAddress{userA, userB, blocked, relayer, authtypes.NewModuleAddress(transfertypes.ModuleName)} {
 		trackedAcc[string(a)] = true
 	}
-	for _, id := range []string{"channel-0", "channel-1"} {
+	for _, id := range []string{chanA, chanB, clientA, clientB} {
 		trackedAcc[string(transfertypes.GetEscrowAddress(port, id))] = true
 		for _, d := range []string{"rla", "rlb"} {
 			trackedDenom[transfertypes.NewDenom(d, transfertypes.NewHop(port, id)).IBCDenom()] = true
@@ -184,6 +188,8 @@ func (s *Sc) Filter(store string, key []byte) bool {
 type pkt struct {
 	In      bool // B -> A
 	P       channeltypes.Packet
+	V2      bool // sent with MsgSendPacket over the client-to-client route (P2 is then the packet)
+	P2      channeltypesv2.Packet
 	Amt     int64
 	Blocked bool   // the receiver is a blocked account of the destination chain
 	Counted bool   // its amount entered a flow of some window
@@ -237,8 +243,10 @@ func (e *ext) KeyBytes() []byte {
 	}
 	for _, p := range e.Pkts {
 		b(p.In)
-		out = binary.BigEndian.AppendUint64(out, p.P.Sequence)
+		b(p.V2)
+		out = binary.BigEndian.AppendUint64(out, p.seq())
 		out = binary.BigEndian.AppendUint64(out, p.P.TimeoutHeight.RevisionHeight)
+		out = binary.BigEndian.AppendUint64(out, p.P2.TimeoutTimestamp)
 		b(p.Blocked)
 		b(p.Counted)
 		b(p.Cur)
@@ -261,6 +269,13 @@ func (e *ext) KeyBytes() []byte {
 }
 
 func xt(w *ksim.World) *ext { return w.Ext.(*ext) }
+
+func (p *pkt) seq() uint64 {
+	if p.V2 {
+		return p.P2.Sequence
+	}
+	return p.P.Sequence
+}
 
 // ---- Init ---------------------------------------------------------------------------------------
 
@@ -298,7 +313,14 @@ func (s *Sc) Init(wk *ksim.Worker) *ksim.World {
 	w := wk.Root()
 	e := &ext{}
 	w.Ext = e
+	// an unrelated first client on B, so that the two chains know each other under different client identifiers
+	if _, r := w.CreateClient(1, 0); r.Class != ksim.OK {
+		panic("c41: cannot create the offset client on B")
+	}
 	l := w.SetupClients(0, 1)
+	if l.ClientA != clientA || l.ClientB != clientB {
+		panic(fmt.Sprintf("c41: unexpected client identifiers %s / %s", l.ClientA, l.ClientB))
+	}
 	w.SetupConnection(l, 0)
 	// an unfinished channel handshake on B only, so that the two ends of the transfer channel carry different identifiers
 	ksim.MustOK("offset channel on B", w.Tx(1, channeltypes.NewMsgChannelOpenInit(ibcmock.PortID, ibcmock.Version, channeltypes.UNORDERED, []string{l.ConnB}, ibcmock.PortID, ksim.Signer)))
@@ -306,44 +328,12 @@ func (s *Sc) Init(wk *ksim.Worker) *ksim.World {
 	if ch.ChanA != chanA || ch.ChanB != chanB {
 		panic(fmt.Sprintf("c41: unexpected channel identifiers %s / %s", ch.ChanA, ch.ChanB))
 	}
+	w.RegisterCounterparties(l)
 	for _, c := range wk.Chains {
 		if !c.App.BankKeeper.BlockedAddr(blocked) {
 			panic("c41: the distribution module account is not a blocked address")
 		}
 	}
-	settle := func(src int, msg *transfertypes.MsgTransfer) {
-		dst := 1 - src
-		r := w.Tx(src, msg)
-		ksim.MustOK("prefix transfer", r)
-		p, err := ibctesting.ParseV1PacketFromEvents(r.Events)
-		if err != nil {
-			panic(err)
-		}
-		cid := func(c int) string {
-			if c == 0 {
-				return l.ClientA
-			}
-			return l.ClientB
-		}
-		w.Sync(dst, cid(dst), src)
-		r = w.RecvV1(dst, src, p, w.ClientLatest(dst, cid(dst)))
-		ksim.MustOK("prefix receive", r)
-		ack, err := ibctesting.ParseAckFromEvents(r.Events)
-		if err != nil {
-			panic(err)
-		}
-		w.Sync(src, cid(src), dst)
-		ksim.MustOK("prefix ack", w.AckV1(src, dst, p, ack, w.ClientLatest(src, cid(src))))
-	}
-	switch s.Path {
-	case pathVoucher:
-		mint(w, 1, userB, "rlb", 7)
-		settle(1, transfertypes.NewMsgTransfer(port, ch.ChanB, sdk.NewInt64Coin("rlb", 4), userB.String(), userA.String(), farHeight, 0, ""))
-	case pathNative:
-		mint(w, 0, userA, "rla", 6)
-		settle(0, transfertypes.NewMsgTransfer(port, ch.ChanA, sdk.NewInt64Coin("rla", 2), userA.String(), userB.String(), farHeight, 0, ""))
-	}
-	denom, q0 := s.denom, s.q0
 	s.mu.Lock()
 	if s.link == nil {
 		s.link, s.ch = l, ch
@@ -352,6 +342,35 @@ func (s *Sc) Init(wk *ksim.Worker) *ksim.World {
 		panic("c41: workers disagree on identifiers")
 	}
 	s.mu.Unlock()
+	// a first transfer, completely settled before the limit exists, creates the voucher balances
+	settle := func(src int, denom string, amt int64, from, to sdk.AccAddress) {
+		dst := 1 - src
+		p, r := s.transfer(w, src, denom, amt, from, to, false)
+		ksim.MustOK("prefix transfer", r)
+		cid := func(c int) string {
+			if c == 0 {
+				return l.ClientA
+			}
+			return l.ClientB
+		}
+		w.Sync(dst, cid(dst), src)
+		r, ack, isErr := s.relayRecv(w, dst, &p, w.ClientLatest(dst, cid(dst)))
+		ksim.MustOK("prefix receive", r)
+		if isErr {
+			panic("c41: prefix transfer was refused")
+		}
+		w.Sync(src, cid(src), dst)
+		ksim.MustOK("prefix ack", s.relayAck(w, &p, ack, w.ClientLatest(src, cid(src))))
+	}
+	switch s.Path {
+	case pathVoucher, pathV2:
+		mint(w, 1, userB, "rlb", 7)
+		settle(1, "rlb", 4, userB, userA)
+	case pathNative:
+		mint(w, 0, userA, "rla", 6)
+		settle(0, "rla", 2, userA, userB)
+	}
+	denom, q0 := s.denom, s.q0
 	if bal(w, 1, userB, s.sendB) < 2 {
 		panic("c41: user B is not funded")
 	}
@@ -361,13 +380,13 @@ func (s *Sc) Init(wk *ksim.Worker) *ksim.World {
 	// equalise the clocks, one common block, honest update of both clients
 	for w.CS[0].TimeNs() != w.CS[1].TimeNs() {
 		if w.CS[0].TimeNs() < w.CS[1].TimeNs() {
-			w.Commit(0, ksim.BlockStep)
+			s.commit(w, 0, ksim.BlockStep)
 		} else {
-			w.Commit(1, ksim.BlockStep)
+			s.commit(w, 1, ksim.BlockStep)
 		}
 	}
-	w.Commit(0, ksim.BlockStep)
-	w.Commit(1, ksim.BlockStep)
+	s.commit(w, 0, ksim.BlockStep)
+	s.commit(w, 1, ksim.BlockStep)
 	ksim.MustOK("final update A", w.UpdateLatest(0, l.ClientA, 1))
 	ksim.MustOK("final update B", w.UpdateLatest(1, l.ClientB, 0))
 	// ibctesting runs InitChain at the zero time, which leaves the hour epoch degenerate (BeginBlocker refuses to
@@ -452,6 +471,11 @@ func newSc(c *core.C, cfg Cfg) *Sc {
 		s.denom = transfertypes.NewDenom("rlb", transfertypes.NewHop(port, chanA)).IBCDenom()
 		s.sendB = "rlb"
 		s.q0 = quota{50, 50, 1} // 50% of 4 = 2 units
+	case pathV2:
+		// as pathVoucher, over the client-to-client route: the voucher's newest hop is A's client identifier
+		s.denom = transfertypes.NewDenom("rlb", transfertypes.NewHop(port, clientA)).IBCDenom()
+		s.sendB = "rlb"
+		s.q0 = quota{50, 50, 1}
 	case pathNative:
 		// A's native token: supply 6, 2 units travel to B before the limit exists (user B can send them home)
 		s.denom = "rla"
@@ -467,19 +491,42 @@ func newSc(c *core.C, cfg Cfg) *Sc {
 	return s
 }
 
-// identifiers of the transfer channel ends (asserted in Init)
+// identifiers of the transfer channel ends and of the two tendermint clients (asserted in Init). They are
+// deliberately different on the two chains so that any source / destination mix-up addresses another path.
 const (
-	chanA = "channel-0"
-	chanB = "channel-1"
+	chanA   = "channel-0"
+	chanB   = "channel-1"
+	clientA = "07-tendermint-0" // A's client of B
+	clientB = "07-tendermint-1" // B's client of A
 )
 
-func (s *Sc) dn() string   { return s.denom }
-func (s *Sc) chID() string { return chanA }
+func (s *Sc) dn() string { return s.denom }
+
+// chID is the channel-or-client identifier of the rate-limited path on A.
+func (s *Sc) chID() string {
+	if s.Path == pathV2 {
+		return clientA
+	}
+	return chanA
+}
+
+// commit is World.Commit plus a repair of a ksim cache corner: after a worker has produced more than 50000
+// distinct snapshots ksim drops its snapshot cache, and a snapshot re-created while its IAVL trees are still in
+// the separate `built` LRU comes back with a nil AppHash (Snapshot.built returns early without setting it).
+// The app hash is then recomputed through a complete rootmulti store (ksim's own self-check path).
+func (s *Sc) commit(w *ksim.World, i int, dt time.Duration) {
+	w.Commit(i, dt)
+	bl := w.CS[i].Blocks
+	if snap := bl[len(bl)-2].After; snap != nil && snap.AppHash == nil {
+		snap.AppHash = snap.RootmultiAppHash()
+		s.repaired.Add(1)
+	}
+}
 
 // commitA commits chain A and lets the reference hour epoch follow: when the new block's time is past the end
 // of the current hour the next hour starts, and a limit whose duration divides the hour number starts a new window.
 func (s *Sc) commitA(w *ksim.World, dt time.Duration) {
-	w.Commit(0, dt)
+	s.commit(w, 0, dt)
 	e := xt(w)
 	m := &e.M
 	if w.CS[0].TimeNs() > m.EpochStartNs+int64(time.Hour) {
@@ -623,27 +670,20 @@ func (s *Sc) Apply(w *ksim.World, op ksim.Op) ksim.Result {
 	switch op.K {
 	case "out":
 		kind := op.A[0]
-		th := farHeight
-		if kind&1 != 0 {
-			th = w.Height(1, w.CS[1].H()+1)
-		}
 		rcv := userB
 		if kind&2 != 0 {
 			rcv = blocked
 		}
 		funds := bal(w, 0, userA, s.sendA)
-		r = w.Tx(0, transfertypes.NewMsgTransfer(port, s.ch.ChanA, sdk.NewInt64Coin(s.sendA, 1), userA.String(), rcv.String(), th, 0, ""))
+		var np pkt
+		np, r = s.transfer(w, 0, s.sendA, 1, userA, rcv, kind&1 != 0)
 		wl := pre.WLOut && kind&2 == 0
 		refPass := !pre.Exists || wl || within(pre.Out-pre.In+1, pre.CV, pre.Q.Send)
 		switch {
 		case r.Class == ksim.OK:
-			p, err := ibctesting.ParseV1PacketFromEvents(r.Events)
-			if err != nil {
-				panic(err)
-			}
-			np := pkt{P: p, Amt: 1, Blocked: kind&2 != 0}
+			np.Blocked = kind&2 != 0
 			if pre.BL {
-				fail("blacklisted-denom-accepted/out", "transfer of blacklisted %s was sent (sequence %d)", s.denom, p.Sequence)
+				fail("blacklisted-denom-accepted/out", "transfer of blacklisted %s was sent (sequence %d)", s.denom, np.seq())
 			} else if !refPass {
 				fail("accepted-over-quota/out", "transfer out accepted although net outflow %d-%d+1 exceeds %d%% of the channel value %d recorded at window start (%s)", pre.Out, pre.In, pre.Q.Send, pre.CV, pre.WinKind)
 			}
@@ -674,25 +714,25 @@ func (s *Sc) Apply(w *ksim.World, op ksim.Op) ksim.Result {
 		if op.A[0] == 1 {
 			rcv = blocked
 		}
-		r = w.Tx(1, transfertypes.NewMsgTransfer(port, s.ch.ChanB, sdk.NewInt64Coin(s.sendB, 1), userB.String(), rcv.String(), farHeight, 0, ""))
+		var ip pkt
+		ip, r = s.transfer(w, 1, s.sendB, 1, userB, rcv, false)
 		if r.Class != ksim.OK {
 			break
 		}
-		p, err := ibctesting.ParseV1PacketFromEvents(r.Events)
-		if err != nil {
-			panic(err)
-		}
-		e.Pkts = append(e.Pkts, pkt{In: true, P: p, Amt: 1, Blocked: op.A[0] == 1})
+		ip.In, ip.Blocked = true, op.A[0] == 1
+		e.Pkts = append(e.Pkts, ip)
 		if op.K == "xin" {
 			// the honest relayer delivers at once: block on B, client update on A, receive on A
 			isTx = false
-			w.Commit(1, step)
+			s.commit(w, 1, step)
 			if r = w.UpdateLatest(0, s.link.ClientA, 1); r.Class != ksim.OK {
 				break
 			}
 			np := &e.Pkts[len(e.Pkts)-1]
-			r = w.RecvV1(0, 1, np.P, w.ClientLatest(0, s.link.ClientA))
-			opClass = s.onRecvIn(e, pre, np, r, fail)
+			var ack []byte
+			var isErr bool
+			r, ack, isErr = s.relayRecv(w, 0, np, w.ClientLatest(0, s.link.ClientA))
+			opClass = s.onRecvIn(e, pre, np, r, ack, isErr, fail)
 		}
 	case "sync":
 		isTx = false
@@ -700,7 +740,7 @@ func (s *Sc) Apply(w *ksim.World, op ksim.Op) ksim.Result {
 		if ch == 0 {
 			s.commitA(w, step)
 		} else {
-			w.Commit(1, step)
+			s.commit(w, 1, step)
 		}
 		e.Commits[ch]++
 		r = w.UpdateLatest(1-ch, s.clientOn(1-ch), ch)
@@ -710,7 +750,7 @@ func (s *Sc) Apply(w *ksim.World, op ksim.Op) ksim.Result {
 		if ch == 0 {
 			s.commitA(w, step)
 		} else {
-			w.Commit(1, step)
+			s.commit(w, 1, step)
 		}
 		e.Commits[ch]++
 		r = ksim.Result{Class: ksim.OK}
@@ -721,7 +761,7 @@ func (s *Sc) Apply(w *ksim.World, op ksim.Op) ksim.Result {
 		// both chains jump one hour (the real BeginBlockers run), both clients learn the new heights
 		isTx = false
 		s.commitA(w, time.Hour)
-		w.Commit(1, time.Hour)
+		s.commit(w, 1, time.Hour)
 		e.Epochs++
 		r = w.UpdateLatest(0, s.link.ClientA, 1)
 		if r2 := w.UpdateLatest(1, s.link.ClientB, 0); r.Class == ksim.OK {
@@ -729,8 +769,7 @@ func (s *Sc) Apply(w *ksim.World, op ksim.Op) ksim.Result {
 		}
 	case "recv":
 		p := &e.Pkts[op.A[0]]
-		r = w.RecvV1(1, 0, p.P, w.Height(0, int64(op.A[1])))
-		onRecvB(p, r)
+		r = s.recvOnB(w, p, w.Height(0, int64(op.A[1])))
 	case "deliver":
 		// the honest relayer carries packet i to B and the acknowledgement proof back to A's client
 		isTx = false
@@ -740,9 +779,8 @@ func (s *Sc) Apply(w *ksim.World, op ksim.Op) ksim.Result {
 		if r = w.UpdateLatest(1, s.link.ClientB, 0); r.Class != ksim.OK {
 			break
 		}
-		r = w.RecvV1(1, 0, p.P, w.ClientLatest(1, s.link.ClientB))
-		onRecvB(p, r)
-		w.Commit(1, step)
+		r = s.recvOnB(w, p, w.ClientLatest(1, s.link.ClientB))
+		s.commit(w, 1, step)
 		if r2 := w.UpdateLatest(0, s.link.ClientA, 1); r2.Class != ksim.OK {
 			r = r2
 		}
@@ -754,9 +792,9 @@ func (s *Sc) Apply(w *ksim.World, op ksim.Op) ksim.Result {
 			if ack == nil {
 				ack = defaultAck
 			}
-			r = w.AckV1(0, 1, p.P, ack, w.Height(1, int64(op.A[1])))
+			r = s.relayAck(w, p, ack, w.Height(1, int64(op.A[1])))
 		} else {
-			r = w.TimeoutV1(0, 1, p.P, channeltypes.UNORDERED, w.Height(1, int64(op.A[1])))
+			r = s.relayTimeout(w, p, w.Height(1, int64(op.A[1])))
 		}
 		if r.Class == ksim.NOOP && p.Final {
 			e.wit = append(e.wit, witDupRelayNoop)
@@ -780,7 +818,7 @@ func (s *Sc) Apply(w *ksim.World, op ksim.Op) ksim.Result {
 			opClass = what + "-of-uncounted-packet"
 		}
 		if p.Final {
-			fail("second-terminal-outcome/"+op.K, "packet %d reached a second terminal outcome on the sender", p.P.Sequence)
+			fail("second-terminal-outcome/"+op.K, "packet %d reached a second terminal outcome on the sender", p.seq())
 			break
 		}
 		p.Final = true
@@ -798,8 +836,10 @@ func (s *Sc) Apply(w *ksim.World, op ksim.Op) ksim.Result {
 		p.Cur = false
 	case "recvin":
 		p := &e.Pkts[op.A[0]]
-		r = w.RecvV1(0, 1, p.P, w.Height(1, int64(op.A[1])))
-		opClass = s.onRecvIn(e, pre, p, r, fail)
+		var ack []byte
+		var isErr bool
+		r, ack, isErr = s.relayRecv(w, 0, p, w.Height(1, int64(op.A[1])))
+		opClass = s.onRecvIn(e, pre, p, r, ack, isErr, fail)
 	case "add", "update", "tighten", "update2h", "remove", "reset":
 		e.Admin++
 		q := s.quotaOf(op.K)
@@ -888,40 +928,149 @@ func (s *Sc) Apply(w *ksim.World, op ksim.Op) ksim.Result {
 // step is the block interval of explored commits (small, so that a few one-sided commits stay within the clients' clock drift).
 const step = time.Second
 
-// onRecvB records the acknowledgement chain B wrote for an outbound packet.
-func onRecvB(p *pkt, r ksim.Result) {
-	if r.Class != ksim.OK {
-		return
+// transfer sends amt of denom from chain src over the scenario's route (v1 MsgTransfer on the channel, or v2
+// MsgSendPacket with an ICS-20 payload between the clients) and returns the packet the relayer sees.
+// short = the packet expires with the destination's next block(s); otherwise the timeout is far away.
+func (s *Sc) transfer(w *ksim.World, src int, denom string, amt int64, from, to sdk.AccAddress, short bool) (pkt, ksim.Result) {
+	dst := 1 - src
+	if s.Path != pathV2 {
+		srcCh := chanA
+		if src == 1 {
+			srcCh = chanB
+		}
+		th := farHeight
+		if short {
+			th = w.Height(dst, w.CS[dst].H()+1)
+		}
+		r := w.Tx(src, transfertypes.NewMsgTransfer(port, srcCh, sdk.NewInt64Coin(denom, amt), from.String(), to.String(), th, 0, ""))
+		if r.Class != ksim.OK {
+			return pkt{}, r
+		}
+		p, err := ibctesting.ParseV1PacketFromEvents(r.Events)
+		if err != nil {
+			panic(err)
+		}
+		return pkt{P: p, Amt: amt}, r
 	}
-	ack, err := ibctesting.ParseAckFromEvents(r.Events)
+	srcID, dstID := clientA, clientB
+	if src == 1 {
+		srcID, dstID = clientB, clientA
+	}
+	// v2 timeouts are whole seconds; "short" is the first second neither chain has reached yet
+	now := max(w.CS[0].TimeNs(), w.CS[1].TimeNs()) / 1e9
+	tsec := uint64(now) + 10*3600
+	if short {
+		tsec = uint64(now) + 1
+	}
+	// the packet carries the full denomination path of the bank denomination
+	path := denom
+	if strings.HasPrefix(denom, "ibc/") {
+		hash, err := transfertypes.ParseHexHash(denom[4:])
+		if err != nil {
+			panic(err)
+		}
+		d, ok := w.W.Chains[src].App.TransferKeeper.GetDenom(w.CS[src].Ctx, hash)
+		if !ok {
+			panic("c41: unknown voucher denomination " + denom)
+		}
+		path = d.Path()
+	}
+	data := transfertypes.NewFungibleTokenPacketData(path, fmt.Sprint(amt), from.String(), to.String(), "")
+	bz, err := transfertypes.MarshalPacketData(data, transfertypes.V1, transfertypes.EncodingProtobuf)
 	if err != nil {
 		panic(err)
 	}
-	p.Ack = ack
-	if p.AckErr, err = ackIsError(ack); err != nil {
+	pl := channeltypesv2.NewPayload(port, port, transfertypes.V1, transfertypes.EncodingProtobuf, bz)
+	seq, r := w.SendV2(src, srcID, tsec, from.String(), pl)
+	if r.Class != ksim.OK {
+		return pkt{}, r
+	}
+	return pkt{V2: true, P2: channeltypesv2.NewPacket(seq, srcID, dstID, tsec, pl), Amt: amt}, r
+}
+
+// relayRecv relays p to chain dst (the other chain sent it) and returns the application acknowledgement written.
+func (s *Sc) relayRecv(w *ksim.World, dst int, p *pkt, ph clienttypes.Height) (ksim.Result, []byte, bool) {
+	if !p.V2 {
+		r := w.RecvV1(dst, 1-dst, p.P, ph)
+		if r.Class != ksim.OK {
+			return r, nil, false
+		}
+		ack, err := ibctesting.ParseAckFromEvents(r.Events)
+		if err != nil {
+			panic(err)
+		}
+		isErr, err := ackIsError(ack)
+		if err != nil {
+			panic(err)
+		}
+		return r, ack, isErr
+	}
+	r := w.RecvV2(dst, 1-dst, p.P2, ph)
+	if r.Class != ksim.OK {
+		return r, nil, false
+	}
+	bz, err := ibctesting.ParseAckV2FromEvents(r.Events)
+	if err != nil {
 		panic(err)
 	}
+	var ack channeltypesv2.Acknowledgement
+	if err := ack.Unmarshal(bz); err != nil {
+		panic(err)
+	}
+	if len(ack.AppAcknowledgements) != 1 {
+		panic("c41: v2 acknowledgement without exactly one application acknowledgement")
+	}
+	app := ack.AppAcknowledgements[0]
+	if string(app) == string(channeltypesv2.ErrorAcknowledgement[:]) {
+		return r, app, true
+	}
+	isErr, err := ackIsError(app)
+	if err != nil {
+		panic(err)
+	}
+	return r, app, isErr
+}
+
+// relayAck relays the acknowledgement of p to the chain that sent it.
+func (s *Sc) relayAck(w *ksim.World, p *pkt, ack []byte, ph clienttypes.Height) ksim.Result {
+	src := 0
+	if (p.V2 && p.P2.SourceClient == clientB) || (!p.V2 && p.P.SourceChannel == chanB) {
+		src = 1
+	}
+	if p.V2 {
+		return w.AckV2(src, 1-src, p.P2, channeltypesv2.Acknowledgement{AppAcknowledgements: [][]byte{ack}}, ph)
+	}
+	return w.AckV1(src, 1-src, p.P, ack, ph)
+}
+
+// relayTimeout relays the timeout of an outbound packet to A.
+func (s *Sc) relayTimeout(w *ksim.World, p *pkt, ph clienttypes.Height) ksim.Result {
+	if p.V2 {
+		return w.TimeoutV2(0, 1, p.P2, ph)
+	}
+	return w.TimeoutV1(0, 1, p.P, channeltypes.UNORDERED, ph)
+}
+
+// recvOnB relays an outbound packet to B and records the acknowledgement B wrote.
+func (s *Sc) recvOnB(w *ksim.World, p *pkt, ph clienttypes.Height) ksim.Result {
+	r, ack, isErr := s.relayRecv(w, 1, p, ph)
+	if r.Class == ksim.OK {
+		p.Ack, p.AckErr = ack, isErr
+	}
+	return r
 }
 
 // onRecvIn lets the reference model follow a receive on A (acceptance oracle of the inbound direction) and
 // returns the operation class used in violation keys.
-func (s *Sc) onRecvIn(e *ext, pre model, p *pkt, r ksim.Result, fail func(key, format string, a ...any)) string {
+func (s *Sc) onRecvIn(e *ext, pre model, p *pkt, r ksim.Result, ack []byte, isErr bool, fail func(key, format string, a ...any)) string {
 	if r.Class == ksim.NOOP && p.Final {
 		e.wit = append(e.wit, witDupRelayNoop)
 	}
 	if r.Class != ksim.OK {
 		return "recvin-" + string(r.Class)
 	}
-	ack, err := ibctesting.ParseAckFromEvents(r.Events)
-	if err != nil {
-		panic(err)
-	}
-	isErr, err := ackIsError(ack)
-	if err != nil {
-		panic(err)
-	}
 	if p.Final {
-		fail("second-receive/in", "packet %d was received twice", p.P.Sequence)
+		fail("second-receive/in", "packet %d was received twice", p.seq())
 		return "recvin-duplicate"
 	}
 	p.Final = true
@@ -1036,20 +1185,26 @@ func run(c *core.C) {
 	parts := []ksim.Part{
 		// quota and net flow in both directions, hour epochs (no packet ever fails)
 		{Name: "macro/voucher/flows", Sc: mk(Cfg{Path: pathVoucher, MaxOut: 3, MaxIn: 3, OutKinds: []int{0}, XinKinds: []int{0, 1}, MaxEpochs: pick(1, 2), NoAck: true, NoRecv: true, NoTimeout: true,
-			Admin: flowAdmin, MaxAdmin: 1}), Cfg: ksim.Config{MaxDepth: pick(7, 8)}, Share: float64(pick(15, 20)) / 100},
+			Admin: flowAdmin, MaxAdmin: 1}), Cfg: ksim.Config{MaxDepth: pick(6, 8)}, Share: float64(pick(35, 20)) / 100},
 		{Name: "macro/native/flows", Sc: mk(Cfg{Path: pathNative, MaxOut: 3, MaxIn: 2, OutKinds: []int{0}, XinKinds: []int{0, 1}, MaxEpochs: pick(1, 2), NoAck: true, NoRecv: true, NoTimeout: true,
-			Admin: flowAdmin, MaxAdmin: 1}), Cfg: ksim.Config{MaxDepth: pick(7, 10)}, Share: float64(pick(15, 10)) / 100},
+			Admin: flowAdmin, MaxAdmin: 1}), Cfg: ksim.Config{MaxDepth: pick(7, 10)}, Share: float64(pick(25, 10)) / 100},
 		// refunds: timeouts and error acknowledgements against epoch resets
 		{Name: "macro/voucher/refunds", Sc: mk(Cfg{Path: pathVoucher, MaxOut: 3, OutKinds: []int{1, 2}, Sync: [2]int{0, 2}, MaxDeliver: pick(2, 3), MaxEpochs: pick(1, 2), NoRecv: true}),
-			Cfg: ksim.Config{MaxDepth: pick(6, 8)}, Share: float64(pick(20, 25)) / 100},
+			Cfg: ksim.Config{MaxDepth: pick(6, 8)}, Share: float64(pick(40, 25)) / 100},
 		// administration against packets in flight
 		{Name: "macro/voucher/admin-timeouts", Sc: mk(Cfg{Path: pathVoucher, MaxOut: pick(2, 3), MaxIn: 1, OutKinds: []int{1}, XinKinds: []int{0}, Sync: [2]int{0, 1}, MaxEpochs: pick(0, 2), NoRecv: true, NoAck: true,
-			Admin: core.Pick(c, adminQ, adminT), MaxAdmin: 2}), Cfg: ksim.Config{MaxDepth: pick(7, 8)}, Share: float64(pick(35, 45)) / 100},
-		{Name: "macro/native/admin-error-acks", Sc: mk(Cfg{Path: pathNative, MaxOut: pick(2, 3), OutKinds: []int{2, 0}, MaxDeliver: pick(2, 3), MaxEpochs: pick(0, 1), NoRecv: true, NoTimeout: true,
+			Admin: core.Pick(c, adminQ, adminT), MaxAdmin: 2}), Cfg: ksim.Config{MaxDepth: pick(6, 7)}, Share: float64(pick(50, 45)) / 100},
+		{Name: "macro/native/admin-error-acks", Sc: mk(Cfg{Path: pathNative, MaxOut: 2, OutKinds: []int{2, 0}, MaxDeliver: 2, MaxEpochs: pick(0, 1), NoRecv: true, NoTimeout: true,
 			Admin: core.Pick(c, []string{"update", "reset"}, adminT), MaxAdmin: pick(1, 2)}), Cfg: ksim.Config{MaxDepth: pick(7, 8)}, Share: float64(pick(35, 60)) / 100},
+		// IBC v2: the rate-limited path is the client-to-client route, keyed by (denom, A's client id); packets are v2
+		// MsgSendPacket with a protobuf ICS-20 payload; the two chains use different client identifiers for each other
+		{Name: "macro/v2-client/refunds", Sc: mk(Cfg{Path: pathV2, MaxOut: 2, MaxIn: pick(0, 1), OutKinds: []int{1, 2}, XinKinds: []int{0}, Sync: [2]int{0, pick(1, 2)}, MaxDeliver: pick(1, 2), MaxEpochs: 1, NoRecv: true,
+			Admin: core.Pick(c, []string{"update"}, adminQ), MaxAdmin: 1}), Cfg: ksim.Config{MaxDepth: pick(5, 6)}, Share: float64(pick(40, 50)) / 100},
+		{Name: "macro/v2-client/flows", Sc: mk(Cfg{Path: pathV2, MaxOut: 3, MaxIn: 3, OutKinds: []int{0}, XinKinds: []int{0, 1}, MaxEpochs: pick(1, 2), NoAck: true, NoRecv: true, NoTimeout: true,
+			Admin: flowAdmin, MaxAdmin: 1}), Cfg: ksim.Config{MaxDepth: pick(6, 8)}, Share: 0.3},
 		// whitelist / blacklist set-up changes
 		{Name: "macro/voucher/lists", Sc: mk(Cfg{Path: pathVoucher, MaxOut: 3, MaxIn: 2, OutKinds: []int{1}, XinKinds: []int{0}, Sync: [2]int{0, 1}, NoRecv: true, NoAck: true,
-			Toggles: []string{"wl-out", "wl-in", "bl"}, MaxToggles: pick(2, 3)}), Cfg: ksim.Config{MaxDepth: pick(6, 9)}, Share: 0.5},
+			Toggles: []string{"wl-out", "wl-in", "bl"}, MaxToggles: pick(2, 3)}), Cfg: ksim.Config{MaxDepth: pick(5, 9)}, Share: 0.5},
 		// primitive steps: separate commit / client update, relays with stale consensus heights, duplicates
 		{Name: "micro/voucher/stale-relays", Sc: mk(Cfg{Path: pathVoucher, MaxOut: 2, MaxIn: pick(0, 1), OutKinds: []int{1}, InKinds: []int{0}, Sync: [2]int{pick(0, 1), 2}, Primitive: true,
 			Admin: []string{"update"}, MaxAdmin: 1}), Cfg: ksim.Config{MaxDepth: pick(6, 9)}},
@@ -1077,7 +1232,7 @@ func run(c *core.C) {
 		{o("out", 2), o("deliver", 0), o("ack", 0, 9), o("ack", 0, 9)},
 		// native path: third transfer refused, accepted again after an inflow and after the epoch reset
 		{o("out", 0), o("out", 0), o("out", 0), o("xin", 0), o("out", 0), o("epoch"), o("out", 0)},
-		// the suspected defect (DESIGN 4.8): MsgUpdateRateLimit keeps the pending marker of the older packet
+		// DESIGN 4.8 (repaired by dd12f51): the older packet's timeout after MsgUpdateRateLimit must leave the new window's outflow at 1
 		{o("out", 1), o("update"), o("out", 1), o("sync", 1), o("timeout", 0, 9)},
 	})
 	if c.Replay != "" {
@@ -1091,6 +1246,11 @@ func run(c *core.C) {
 		}
 	}
 	c.Set("witness_transitions", tot)
+	var rep int64
+	for _, p := range parts {
+		rep += p.Sc.(*Sc).repaired.Load()
+	}
+	c.Set("ksim_snapshot_apphash_repaired", int(rep))
 	if !c.Capped() && c.Violations() <= 5 && os.Getenv("VERIF_C41_PART") == "" {
 		for _, n := range []string{"out_rejected_by_quota", "in_rejected_by_quota", "in_error_ack_blocked_receiver", "refund_of_packet_counted_in_current_window",
 			"timeout_or_error_ack_of_packet_from_older_window", "epoch_reset", "admin_started_window", "duplicate_relay_noop"} {
@@ -1099,10 +1259,10 @@ func run(c *core.C) {
 			}
 		}
 	}
-	c.Set("alphabet", "out(far | short timeout | blocked receiver on B) | in(receiver user A | blocked receiver on A) | xin = in + block on B + client update + receive on A | deliver(i) = block on A + client update + receive on B + block on B + client update | sync(A|B) = commit + honest client update (micro part: in / commit / client update / recv / recvin separately, relays with the 3 newest consensus heights) | ack | timeout | epoch (both chains +1h through the real BeginBlockers) | MsgAddRateLimit | MsgUpdateRateLimit (same quota / halved / 2h duration) | MsgRemoveRateLimit | MsgResetRateLimit (authority = gov module) | whitelist pair / blacklist denom toggles (keeper calls: no messages exist); unit amounts; every relay enabled forever")
+	c.Set("alphabet", "three routes, one per part: v1 channel with the voucher denom rate-limited, v1 channel with the native denom rate-limited, IBC v2 client-to-client route (MsgSendPacket, protobuf ICS-20 payload, limit keyed by client id; asymmetric client and channel identifiers on the two chains) | out(far | short timeout | blocked receiver on B) | in(receiver user A | blocked receiver on A) | xin = in + block on B + client update + receive on A | deliver(i) = block on A + client update + receive on B + block on B + client update | sync(A|B) = commit + honest client update (micro part: in / commit / client update / recv / recvin separately, relays with the 3 newest consensus heights) | ack | timeout | epoch (both chains +1h through the real BeginBlockers) | MsgAddRateLimit | MsgUpdateRateLimit (same quota / halved / 2h duration) | MsgRemoveRateLimit | MsgResetRateLimit (authority = gov module) | whitelist pair / blacklist denom toggles (keeper calls: no messages exist); unit amounts; every relay enabled forever")
 	c.Set("reference_model", "window = (inflow, outflow, channel value = bank supply read when the window starts, set of packets counted in this window and not yet finalized); quota check net*100 <= channelValue*percent; window starts at add / update / reset / hour epoch whose number is divisible by the duration")
 	c.Assume("counterparty consensus, storage commit and validator signing are played by the harness; one message per transaction, no ante handlers")
 	c.Assume("ibctesting runs InitChain at time zero which leaves the rate-limit hour epoch degenerate; Init installs a well-formed epoch (number 23, started 30 min before the root block) through Keeper.SetHourEpoch")
 	c.Assume("the supply of the rate-limited denomination never reaches zero within the bounds (user A holds 4 units, at most 3 transfers out), so the documented 'zero channel value disables the limit' exemption of Quota.CheckExceedsQuota is not exercised")
-	c.Assume("IBC v2 (rate-limiting/v2 middleware) and the asynchronous-acknowledgement path of packet-forward-middleware (UndoReceivePacket) are outside this world: v1 ics20-1 channel, synchronous acknowledgements only")
+	c.Assume("the asynchronous-acknowledgement paths (packet-forward-middleware UndoReceivePacket, v2 WriteAcknowledgement wrapper) are outside this world: synchronous acknowledgements only; v2 traffic over the channel alias (v1 channel id used as v2 client id) is not exercised, only the direct client-to-client route")
 }
